@@ -580,6 +580,17 @@ fn mutate_line(rng: &mut Rng, line: &[u8]) -> Vec<u8> {
 
 fn generate(rng: &mut Rng, tier: &str, w: &mut CaseWriter) {
     let thorough = tier == "thorough";
+    // the run's seed (Rng::new is invertible): the thorough float sweep is split in three thirds
+    // over the seeds s, s+1000, s+1001 that one thorough check runs, so that together they cover
+    // all 2^32 bit patterns without repeating the same sweep three times
+    let seed = {
+        let k: u64 = 0x9E37_79B9_7F4A_7C15;
+        let mut inv: u64 = k;
+        for _ in 0..6 {
+            inv = inv.wrapping_mul(2u64.wrapping_sub(k.wrapping_mul(inv)));
+        }
+        (rng.0 ^ 0xD1B5_4A32_D192_ED03).wrapping_mul(inv)
+    };
     let (n_rt, n_hdr, n_wr, n_pr) = if thorough { (6000, 6000, 12000, 16000) } else { (350, 400, 900, 1200) };
     // fixed, hand-picked cases first
     {
@@ -633,9 +644,13 @@ fn generate(rng: &mut Rng, tier: &str, w: &mut CaseWriter) {
     if thorough {
         let chunk = 1u64 << 22;
         let mut b = 0u64;
+        let mut i = 0u64;
         while b < (1u64 << 32) {
-            w.push("fsw", vec![b.to_string(), chunk.to_string()]);
+            if i % 3 == seed % 3 {
+                w.push("fsw", vec![b.to_string(), chunk.to_string()]);
+            }
             b += chunk;
+            i += 1;
         }
     } else {
         for base in [0u64, 0x0080_0000 - 2048, 0x3f80_0000 - 2048, 0x4b00_0000, 0x7f7f_ffff - 4095, 0x8000_0000, 0xff7f_ffff - 4095] {
